@@ -7,7 +7,7 @@
    `classified r mt p d o` : message type and the proxy / directory / originating-ID predicates. *)
 From Coq Require Import ZArith List Bool.
 From SP Require Import Base.Result Base.Bytes Model.Lv Model.Tlv Model.MsgToUser
-  Spec.TlvSpec Spec.MsgSpec Proofs.MsgProofs.
+  Spec.TlvSpec Spec.MsgSpec Proofs.MsgProofs Proofs.MsgLimits.
 Import ListNotations.
 Open Scope Z_scope.
 
@@ -132,6 +132,71 @@ Print Assumptions C18_any_message_wire.
 Theorem C18_too_long : forall mt f, 0 <= mt <= 255 -> 250 < len f -> reserved_new mt f = Err EValue.
 Proof. exact reserved_too_long. Qed.
 Print Assumptions C18_too_long.
+
+(* ---- the limit at the CONSTRUCTORS of the three name-carrying messages (the TLV value holds
+   at most 255 octets: "cfdp", the type octet, the fields): refused with ValueError exactly when
+   the fields exceed 250 octets ---- *)
+Theorem C18_put_request_too_long : forall v w S D,
+  width_ok w -> 0 <= v < 256 ^ w -> len S <= 255 -> len D <= 255 ->
+  250 < len (put_request_fields (Z.to_nat w) v S D) ->
+  proxy_put_request (v, w) S D = Err EValue.
+Proof. exact put_request_too_long. Qed.
+Print Assumptions C18_put_request_too_long.
+Theorem C18_put_request_accept_iff : forall v w S D,
+  width_ok w -> 0 <= v < 256 ^ w -> len S <= 255 -> len D <= 255 ->
+  (is_ok (proxy_put_request (v, w) S D) = true <-> len S + len D <= 247 - w).
+Proof. exact put_request_accept_iff. Qed.
+Print Assumptions C18_put_request_accept_iff.
+
+Theorem C18_dir_listing_request_too_long : forall P N,
+  len P <= 255 -> len N <= 255 -> 250 < len (dir_request_fields P N) ->
+  directory_listing_request P N = Err EValue.
+Proof. exact dir_request_too_long. Qed.
+Print Assumptions C18_dir_listing_request_too_long.
+Theorem C18_dir_listing_request_accept_iff : forall P N, len P <= 255 -> len N <= 255 ->
+  (is_ok (directory_listing_request P N) = true <-> len P + len N <= 248).
+Proof. exact dir_request_accept_iff. Qed.
+Print Assumptions C18_dir_listing_request_accept_iff.
+
+Theorem C18_dir_listing_response_too_long : forall s P N,
+  In s [0; 1] -> len P <= 255 -> len N <= 255 -> 250 < len (dir_response_fields s P N) ->
+  directory_listing_response s P N = Err EValue.
+Proof. exact dir_response_too_long. Qed.
+Print Assumptions C18_dir_listing_response_too_long.
+Theorem C18_dir_listing_response_accept_iff : forall s P N, In s [0; 1] -> len P <= 255 -> len N <= 255 ->
+  (is_ok (directory_listing_response s P N) = true <-> len P + len N <= 247).
+Proof. exact dir_response_accept_iff. Qed.
+Print Assumptions C18_dir_listing_response_accept_iff.
+
+(* names of 251..255 octets (the property's quantifier text says 0..255): such a name cannot be
+   carried by any of the three messages, whatever the other name: ValueError at construction.
+   (The format allows it: 255-octet TLV value.)  Same on the implementation (replayed). *)
+Theorem C18_long_name_refused : forall v w s S D,
+  width_ok w -> 0 <= v < 256 ^ w -> In s [0; 1] -> len S <= 255 -> len D <= 255 ->
+  251 <= len S \/ 251 <= len D ->
+  proxy_put_request (v, w) S D = Err EValue /\
+  directory_listing_request S D = Err EValue /\
+  directory_listing_response s S D = Err EValue.
+Proof. exact long_name_refused. Qed.
+Print Assumptions C18_long_name_refused.
+
+(* the other six kinds have fields of at most 17 octets and never meet the limit *)
+Theorem C18_fixed_kinds_fit : forall sw sv qw qv cc dc fs b rc al,
+  (sw <= 8)%nat -> (qw <= 8)%nat ->
+  len (originating_id_fields sw sv qw qv) <= 17 /\ len (put_response_fields cc dc fs) = 1 /\
+  len (closure_fields b) = 1 /\ len (transmission_mode_fields b) = 1 /\
+  len (dir_options_fields rc al) = 1.
+Proof. exact fixed_kinds_fit. Qed.
+Print Assumptions C18_fixed_kinds_fit.
+
+Example C18_name_length_boundary :
+  is_ok (proxy_put_request (1, 1) (repeat 65 246) []) = true /\
+  proxy_put_request (1, 1) (repeat 65 247) [] = Err EValue /\
+  is_ok (directory_listing_request (repeat 65 248) []) = true /\
+  directory_listing_request (repeat 65 249) [] = Err EValue /\
+  is_ok (directory_listing_response 1 (repeat 65 247) []) = true /\
+  directory_listing_response 1 (repeat 65 248) [] = Err EValue.
+Proof. exact put_request_boundary. Qed.
 
 (* ---------------- C10 for this slice: decode path and parsers are total ---------------- *)
 Theorem C18_decode_total : forall d, wf_bytes d -> ok_or_documented (decode_reserved d).
